@@ -28,7 +28,12 @@ import (
 //	C honestly signed by C (sender C) on B's session
 //	X signed by B under another signing context
 //	Y hash type field changed      E empty signed message
-const alphabet = "HTSFCXYE"
+//	P signed by C, claims B, C's public key attached to the signature object
+const alphabet = "HTSFCXYEP"
+
+// sigCtx is the signing context of signaling session messages (copied from
+// signaling/rpc/signaling.go: the forger knows it).
+const sigCtx = "bifrost/signaling/rpc session msg 2024-06-05T02:45:07.208906Z"
 
 func craft(s *sigh.S2, kind byte, i int) (*signaling.SessionMsg, string) {
 	id := fmt.Sprintf("%c%d", kind, i)
@@ -58,6 +63,12 @@ func craft(s *sigh.S2, kind byte, i int) (*signaling.SessionMsg, string) {
 		return m, id
 	case 'E':
 		return &signaling.SessionMsg{SignedMsg: &peer.SignedMsg{}, Seqno: seq}, id
+	case 'P':
+		sig, err := peer.NewSignature(sigCtx, s.Keys["C"].Priv, hash.HashType_HashType_BLAKE3, []byte(id), true)
+		if err != nil {
+			panic(err)
+		}
+		return &signaling.SessionMsg{SignedMsg: &peer.SignedMsg{FromPeerId: s.IDs["B"], Data: []byte(id), Signature: sig}, Seqno: seq}, id
 	}
 	panic("kind")
 }
